@@ -155,6 +155,11 @@ def _programs(shard, seed):
             for mn, mx in k_ranges(n):
                 yield {"model": "UnsupervisedOPF", "mode": "features", "X": X, "metric": metric,
                        "labels": [i % 2 for i in range(n)], "min_k": mn, "max_k": mx}
+                if lk == "1d" and n == 4 and mn == 1:
+                    # sample identifiers that are not the positions (no pre-computed distances in use)
+                    for I in ([3, 2, 1, 0], [7, 5, 9, 11]):
+                        yield {"model": "UnsupervisedOPF", "mode": "features", "X": X, "metric": metric,
+                               "labels": [i % 2 for i in range(n)], "min_k": mn, "max_k": mx, "I_train": I}
             for lab in labs:
                 lab = list(E.rename_classes(lab, seed))
                 for mx in range(1, n):
@@ -194,7 +199,7 @@ def force_k(prog):
     if prog["model"] == "KNNSupervisedOPF":
         import opfython.math.general as g
 
-        def acc(labels, preds):
+        def acc(labels, preds, *more, **kw):
             calls[0] += 1
             return 1.0 if calls[0] == k else 0.0
 
